@@ -712,6 +712,14 @@ pub fn owed_answer(
     match drop_ev {
         None => true,
         Some(d) => {
+            // the server had already closed when the client began to write
+            // this request (also right for TLS, where wire byte counts are
+            // not plaintext offsets)
+            if let Some(q) = obs.start_seq.get(k).copied().flatten() {
+                if d.seq < q {
+                    return false;
+                }
+            }
             let delivered: u64 = out
                 .events
                 .iter()
